@@ -91,9 +91,24 @@ def run(ctx):
     g = cg.cfg(sp); recv = sp.recv; chain = sp.params[1]
     rec = nodes_calling(g, lambda c: isinstance(c.func, ast.Attribute) and c.func.attr == '_save_')
     ctx.floor('C16-PRINC', len(rec), 1, 'recursive principal saves')
-    created_tests = {t.id for t in g.nodes if t.kind == 'test' and "._status_ == 'created'" in norm(t.ast)}
+    # the recursive save is unreachable for a principal whose status is not 'created' (evaluated three-valued, so `v is not None and v._status_ ==
+    # 'created'`, `if v is None or v._status_ != 'created': continue` and the like are the same)
+    from ..typestate import eval_test
     for r in rec:
-        rr = g.reach([g.entry], edge_ok=lambda x, y, lab: not (x in created_tests and lab == 'T'))
+        c0 = [c for c in r.calls() if isinstance(c.func, ast.Attribute) and c.func.attr == '_save_'][0]
+        pv = norm(c0.func.value)
+        def atom(text, node, pv=pv):
+            if text == pv + "._status_ == 'created'": return False
+            if text == pv + "._status_ != 'created'": return True
+            if text == pv + ' is None': return False
+            if text == pv + ' is not None': return True
+            return None
+        def eo(x, y, lab):
+            n_ = g.nodes[x]
+            if n_.kind != 'test' or lab not in ('T', 'F'): return True
+            v = eval_test(n_.ast, atom)
+            return v is None or v == (lab == 'T')
+        rr = g.reach([g.entry], edge_ok=eo)
         c = [c for c in r.calls() if isinstance(c.func, ast.Attribute) and c.func.attr == '_save_'][0]
         ok = r.id not in rr and any(dotted(a) == chain for a in c.args)
         ctx.ob('C16-PRINC.recursion-only-into-created-principals', sp, r.ast, ok,
